@@ -259,12 +259,61 @@ func hazardSession(r *rand.Rand, kind, version string, header bool) Session {
 	return s
 }
 
+func takesOptions(shape string) bool {
+	switch opOf(shape) {
+	case "get", "get-config", "rpc", "commit", "commit-confirmed", "commit-confirmed-timeout", "commit-persist", "commit-persist-id":
+		return true
+	}
+	return false
+}
+
+// noAnswerSession: the server leaves one or two requests unanswered (or answers them only after the
+// call has given up); 1..5 more requests follow each of them on the same stream.
+func noAnswerSession(r *rand.Rand, k int) Session {
+	s := newSession(r, "noanswer", []string{"1.0", "1.1"}[k%2], (k/2)%2 == 0, (k/4)%2 == 0)
+	g := &xg{r: r, mb: r.Intn(4) != 0}
+	before := r.Intn(4)
+	after := 1 + r.Intn(5)
+	mk := func(fail bool) Req {
+		q := genReq(r, g, shapes[r.Intn(len(shapes))])
+		if q.Arg.N > 0 {
+			q.Arg = lit("<big/>")
+		}
+		if fail {
+			q.NoAnswer = []string{"silent", "late"}[r.Intn(2)]
+			q.TimeoutVia = "channel"
+			if takesOptions(q.Shape) && r.Intn(3) != 0 {
+				q.TimeoutVia = "op"
+			}
+		}
+		return q
+	}
+	for i := 0; i < before; i++ {
+		s.Reqs = append(s.Reqs, mk(false))
+	}
+	s.Reqs = append(s.Reqs, mk(true))
+	for i := 0; i < after; i++ {
+		s.Reqs = append(s.Reqs, mk(false))
+	}
+	if r.Intn(3) == 0 { // a second failure, directly after the first or later
+		if r.Intn(2) == 0 {
+			s.Reqs = append(s.Reqs[:before+1], append([]Req{mk(true)}, s.Reqs[before+1:]...)...)
+		} else {
+			s.Reqs = append(s.Reqs, mk(true))
+			for i, n := 0, 1+r.Intn(3); i < n; i++ {
+				s.Reqs = append(s.Reqs, mk(false))
+			}
+		}
+	}
+	return s
+}
+
 // Gen is the case list: a pure function of (tier, seed).
 func Gen(tier string, seed int64) []mon.Case {
 	r := rand.New(rand.NewSource(seed*104729 + 3))
-	nGrid, nSweep, nRandom, nBig := 4, 2, 150, 8
+	nGrid, nSweep, nRandom, nBig, nNoAns := 4, 2, 150, 8, 24
 	if tier == "thorough" {
-		nGrid, nSweep, nRandom, nBig = 40, 12, 9000, 128
+		nGrid, nSweep, nRandom, nBig, nNoAns = 40, 12, 9000, 128, 400
 	}
 	var ss []Session
 	for round := 0; round < nGrid; round++ {
@@ -293,6 +342,9 @@ func Gen(tier string, seed int64) []mon.Case {
 	}
 	for i := 0; i < nBig; i++ {
 		ss = append(ss, bigSession(r, i))
+	}
+	for i := 0; i < nNoAns; i++ {
+		ss = append(ss, noAnswerSession(r, i))
 	}
 	for _, k := range hazardKinds {
 		for _, v := range []string{"1.0", "1.1"} {
